@@ -1296,9 +1296,14 @@ class Bits:
         assert start <= end
         assert bitstring.options.lsb0
 
+        if bytealigned:
+            # Byte alignment is a property of the lsb0 position (as in findall): the first aligned match.
+            for lsb0_pos in self._findall_lsb0(bs, start, end, 1, True):
+                return (lsb0_pos,)
+            return ()
         new_slice = bitstring.bitstore.offset_slice_indices_lsb0(slice(start, end, None), len(self))
         msb0_start, msb0_end = self._validate_slice(new_slice.start, new_slice.stop)
-        p = self._rfind_msb0(bs, msb0_start, msb0_end, bytealigned)
+        p = self._rfind_msb0(bs, msb0_start, msb0_end, False)
 
         if p:
             return (len(self) - p[0] - len(bs),)
@@ -1413,7 +1418,14 @@ class Bits:
         new_slice = bitstring.bitstore.offset_slice_indices_lsb0(slice(start, end, None), len(self))
         msb0_start, msb0_end = self._validate_slice(new_slice.start, new_slice.stop)
 
-        p = self._find_msb0(bs, msb0_start, msb0_end, bytealigned)
+        if bytealigned:
+            # The highest byte-aligned lsb0 position is the first match, in stored order, whose lsb0 position is aligned.
+            for p in self._bitstore.findall_msb0(bs._bitstore, msb0_start, msb0_end, False):
+                lsb0_pos = len(self) - p - len(bs)
+                if lsb0_pos % 8 == 0:
+                    return (lsb0_pos,)
+            return ()
+        p = self._find_msb0(bs, msb0_start, msb0_end, False)
         if p:
             return (len(self) - p[0] - len(bs),)
         else:
